@@ -484,7 +484,8 @@ LAYOUTS = ['as-built', 'touch-sample', 'touch-obs', 'touch-both',
            'filtered-keep-all', 'after-nnz', 'coo-input', 'deepcopied',
            'pickled', 'narrow-dtype-input', 'after-queries',
            'csr-duplicate-entries', 'csc-duplicate-entries',
-           'table-subclass', 'zero-written-csr', 'zero-written-csc']
+           'table-subclass', 'zero-written-csr', 'zero-written-csc',
+           'ids-partly-numbers']
 
 
 _SUBCLASS = {}
@@ -531,6 +532,20 @@ def apply_layout(biom, spec, recipe, r):
             pos = lo + int(np.searchsorted(mat.indices[lo:hi], minor))
             mat.data[pos] = 0.0
         return t
+    if recipe == 'ids-partly-numbers':
+        # id lists as user code has them: the ids that are whole numbers
+        # given as ints, the others as text (numpy makes text of them all)
+        def given(ids):
+            conv = [int(i) if (i.isdigit() and i.isascii() and
+                               str(int(i)) == i) else i for i in ids]
+            if all(isinstance(c, int) for c in conv) or \
+                    not any(isinstance(c, int) for c in conv):
+                return list(ids)
+            return conv
+        return biom.Table(spec.D.copy(), given(spec.obs_ids),
+                          given(spec.samp_ids), copy.deepcopy(spec.obs_md),
+                          copy.deepcopy(spec.samp_md), type=spec.type,
+                          table_id=spec.table_id)
     if recipe == 'coo-input':
         return build(biom, spec, 'coo')
     if recipe in ('csr-stored-zeros', 'csc-stored-zeros', 'csr-unsorted'):
